@@ -79,3 +79,60 @@ theorem c02_refine_on_nil_false :
   decide
 
 end Gozod.C02
+
+namespace Gozod.C02
+open Gozod.Cont
+
+/-! ### `Object.Required` -/
+
+/-- **after C02-object-required**: a field the call names (every field for `Required()`) may not be absent, whatever its
+    schema's Optional flag and whatever an earlier `Partial` said. -/
+theorem required_fixed_named (r : ReqCall) (shape : List Field) (p : Partial) (f' : Field)
+    (hf : f' ∈ (requiredFixed r shape p).1) (hn : (r.names shape).contains f'.name = true) :
+    fieldOptional (requiredFixed r shape p).2 f' = false := by
+  simp only [requiredFixed] at hf ⊢
+  obtain ⟨g, _, hg⟩ := List.mem_map.1 hf
+  have hname : f'.name = g.name := by
+    rw [← hg]
+    by_cases hc : (r.names shape).contains g.name = true
+    · rw [if_pos hc]
+    · rw [if_neg hc]
+  have hopt : f'.optional = false := by
+    rw [← hg, if_pos (hname ▸ hn)]
+  have hmem : f'.name ∈ r.names shape := by simpa using hn
+  unfold fieldOptional
+  by_cases hp : p.on = true
+  · simp [hp, hopt, hmem]
+  · simp [hp, hopt]
+
+/-- … and a field it does not name keeps its state. -/
+theorem required_fixed_other (r : ReqCall) (shape : List Field) (p : Partial) (f : Field)
+    (hn : (r.names shape).contains f.name = false) :
+    fieldOptional (requiredFixed r shape p).2 f = fieldOptional p f := by
+  have hmem : f.name ∉ r.names shape := by simpa using hn
+  simp only [requiredFixed]
+  unfold fieldOptional
+  by_cases hp : p.on = true
+  · cases p.exceptions <;> simp [hp, hmem]
+  · simp [hp]
+
+/-- **witness for the code before the fix**: `Required()` made EVERY field optional, `Required(ks)` every field not in `ks`. -/
+theorem required_legacy_all_optional (shape : List Field) (p : Partial) (f : Field) :
+    fieldOptional (requiredLegacy .all shape p).2 f = true := by
+  simp [requiredLegacy, fieldOptional]
+
+theorem required_legacy_others_optional (ks : List Nat) (shape : List Field) (p : Partial) (f : Field)
+    (h : ks.contains f.name = false) : fieldOptional (requiredLegacy (.keys ks) shape p).2 f = true := by
+  have hmem : f.name ∉ ks := by simpa using h
+  simp [requiredLegacy, fieldOptional, hmem]
+
+/-- `Object{a: String()}.Required().Parse({})`: rejected by the fixed code, accepted before. -/
+theorem c02_required_witness :
+    let sh : List Field := [{ name := 1, m := 0 }]
+    (let (s, p) := applyRequired { reqFix := true } (some .all) sh {}
+     (run {} (fun _ v => .ok v) (.object {} s .strip none p []) (.map .str .any (some []))).isOk) = false
+    ∧ (let (s, p) := applyRequired { reqFix := false } (some .all) sh {}
+       (run {} (fun _ v => .ok v) (.object {} s .strip none p []) (.map .str .any (some []))).isOk) = true := by
+  decide
+
+end Gozod.C02
